@@ -27,6 +27,8 @@ struct Family {
   int userXattr;  // 0 trusted, 1 user, 2 prefer=user/avoid=trusted, 3 prefer=trusted/avoid=user
   int mode;  // 0: full product over (pref, metric, outcome) of all nodes; 1: deviation-bounded over all attributes
   int maxDev;
+  bool hook = false;  // a prekill hook matching everything stays pending for one tick on its first invocation: the kill is
+                      // deferred, and the search resumes from the saved candidate stack on the next tick
 };
 
 bool isParentOf(const std::string& p, const std::string& c) {
@@ -111,6 +113,14 @@ struct C03 : vr::Driver {
         fams.push_back({"chain-dev", chain, "p", true, pl, ux, 1, th ? 3 : 2});
         fams.push_back({"two-parents-nonrecursive-dev", two, "p*", false, pl, ux, 1, 2});
       }
+    // the same search resumed after a prekill hook deferred the first kill (rate-based plugins excluded: their ranking is taken
+    // on the deferral tick, where every rate is still zero)
+    for (auto& pl : {std::string("kill_by_swap_usage"), std::string("kill_by_pressure")}) {
+      if (!th && pl != "kill_by_swap_usage") continue;
+      fams.push_back({"flat3-product/deferred-by-hook", flat, "p/*", false, pl, 0, 0, 0, true});
+      fams.push_back({"two-parents-dev/deferred-by-hook", two, "p*", true, pl, 0, 1, 2, true});
+      if (th) fams.push_back({"chain-dev/deferred-by-hook", chain, "p", true, pl, 0, 1, 3, true});
+    }
     for (size_t fi = 0; fi < fams.size(); fi++) enumerate((int)fi);
   }
   size_t count() override { return items.size(); }
@@ -126,7 +136,7 @@ struct C03 : vr::Driver {
     for (auto& x : f.nodes) n += x + " ";
     return f.name + " plugin=" + f.plugin + " cgroup=" + f.pattern + " recursive=" + (f.recursive ? "1" : "0") + " xattr-ns=" +
            (f.userXattr == 0 ? "trusted" : f.userXattr == 1 ? "user" : f.userXattr == 2 ? "prefer:user,avoid:trusted" : "prefer:trusted,avoid:user") + " nodes={" + n + "} " +
-           (f.mode == 0 ? "full product of (pref x metric x outcome) per matched node" : "all attribute assignments with <= " + std::to_string(f.maxDev) + " deviations from the default node");
+           (f.hook ? "first kill deferred for one tick by a pending prekill hook; " : "") + (f.mode == 0 ? "full product of (pref x metric x outcome) per matched node" : "all attribute assignments with <= " + std::to_string(f.maxDev) + " deviations from the default node");
   }
   std::string klass(size_t i) override { return fams[items[i].fam].plugin; }
   void workerInit() override { sim::processInit(); }
@@ -253,6 +263,12 @@ struct C03 : vr::Driver {
       if (f.plugin == "kill_by_pressure") s.args["resource"] = "memory";
       if (f.plugin == "kill_by_memory_size_or_growth") s.args["size_threshold"] = "0";
       s.ticks = f.plugin == "kill_by_pg_scan" ? 3 : 2;
+      if (f.hook) {
+        s.hooksJson = "{\"name\":\"verif_hook\",\"args\":{\"id\":\"h\",\"cgroup\":\"/\"}}";
+        s.hookTimeout = 30;
+        s.hookDecide = [](const std::string&, long inv, int polls) { return inv >= 2 || polls >= 1; };  // only the very first invocation stays pending
+        s.ticks += 1;
+      }
       for (auto& n : nodes) {
         Cg c;
         c.rel = n.rel;
